@@ -25,6 +25,7 @@ def gen_ring(rng, tier):
 
 SPEC = {
     "C16": {
+        "extra_props": ("QueueHist",),
         "parts": [{"name": "ring", "harness": "ring", "model": "Ring", "gen": gen_ring}],
         "trusted_base": ["64-bit wrap-around of high/low not modelled (2^64 operations unreachable)"],
         "assumptions": ["values pushed are non-NULL (asserted by the C code)",
